@@ -419,6 +419,12 @@ C19v(line, pre, exp) ==
      \cup UNION {{<<"C19", "terminated-non-candidate-instance", g, n>> : n \in {m \in TermAttempt(line, g) : m \notin Listed(pre, g)}} : g \in Groups(pre)}
      \cup (IF exp.ret = "notingroup" /\ exp.valid /\ line.ret # "notingroup" /\ ~line.panic /\ ~line.hang
              THEN {<<"C19", "continued-after-not-in-group", "", "">>} ELSE {})
+     \* the removal request of the specification (same candidates, same cloud state) refuses or stops where this one went on:
+     \* an instance was terminated although the whole request had to be refused (minimum) or had already stopped
+     \cup (IF ~exp.valid THEN {} ELSE
+           UNION {{<<"C19", "terminated-beyond-the-admissible-request", g, n>> :
+                     n \in {m \in TermAttempt(line, g) : ~\E i \in 1..Len(exp.res[g].calls) : exp.res[g].calls[i].op = "terminate" /\ exp.res[g].calls[i].n = m}}
+                  : g \in Groups(pre)})
 C19f(line, pre, exp) ==
   (IF \E i \in 1..Len(line.calls) : line.calls[i].op = "delete" THEN {"C19:node-deletes"} ELSE {})
   \cup (IF \E i \in 1..Len(line.calls) : line.calls[i].op = "terminate" /\ ~line.calls[i].ok THEN {"C19:terminate-failed"} ELSE {})
